@@ -1,7 +1,60 @@
-"""C05 - see family_a.py."""
+"""C05 - family A clauses + constraint row-class layout (R-SEQ.2)."""
 
+from ..db import LaunchCtx
+from ..report import Finding
+from ..rules.world import array_key
 from . import family_a
+
+CLASS_OF = {"Data.ne": 0, "Data.nf": 1, "Data.nl": 2}
+CLASS_NAME = ["equality (ne)", "friction loss (nf)", "limit (nl)", "contact"]
+
+
+def check_row_class_order(db, res) -> int:
+  """R-SEQ.2: the solver, the constraint update and the sensors classify a row by its position
+  (`efcid < ne` equality, `< ne + nf` friction loss, then limits, then contacts). Rows get their position from an atomic
+  counter in launch order, so on the trace of make_constraint every launch that allocates rows of class k must come
+  before every launch that allocates rows of class k+1, and each allocating kernel bumps exactly its class counter
+  together with nefc. Also: a launch that bumps a class counter always allocates from nefc in the same kernel."""
+  hi = db.trace("constraint.make_constraint")
+  rows = []
+  for ev in hi.events:
+    if ev.kind != "launch" or ev.kernel is None or not ev.arity_ok:
+      continue
+    lc = LaunchCtx(db, ev)
+    keys = {array_key(lc, a.root) for a in lc.keval.accesses if a.kind == "atomic_add"}
+    cls = sorted(CLASS_OF[k] for k in keys if k in CLASS_OF)
+    if "Data.nefc" not in keys and not cls:
+      continue
+    rows.append((ev.seq, lc.name, cls, "Data.nefc" in keys, ev.loc))
+  n = 0
+  last_cls = -1
+  last_name = ""
+  for seq, name, cls, has_nefc, loc in rows:
+    n += 1
+    res.ob(len(cls) <= 1, f"{name}|one-class", Finding("R-SEQ.2", f"{name}|row-class|several-counters", f"{name} bumps several row-class counters {[CLASS_NAME[c] for c in cls]}: its rows cannot be contiguous in one class", loc))
+    res.ob(has_nefc, f"{name}|allocates-nefc", Finding("R-SEQ.2", f"{name}|row-class|no-row-allocation", f"{name} bumps a row-class counter without allocating the rows from nefc in the same kernel", loc))
+    k = cls[0] if cls else 3
+    res.ob(
+      k >= last_cls,
+      f"{name}|order",
+      Finding(
+        "R-SEQ.2",
+        f"{name}|row-class|out-of-order-after-{last_name}",
+        f"{name} allocates {CLASS_NAME[k]} rows after {last_name} already allocated {CLASS_NAME[last_cls]} rows: rows are classified by position (efcid < ne, < ne+nf, ...), so these rows would be treated as the wrong constraint class by the solver",
+        loc,
+      ),
+      sample={"launch": name, "class": CLASS_NAME[k], "order": seq},
+    )
+    if k >= last_cls:
+      last_cls, last_name = k, name
+  return n
+
+
+def _extra(db, res, tier, scope):
+  n = check_row_class_order(db, res)
+  res.floor("row-allocating launches in make_constraint", n, 12)
 
 
 def run(db, res, tier):
-  family_a.run_family(db, res, tier, "C05")
+  family_a.run_family(db, res, tier, "C05", extra=_extra)
+  res.rule_text += "; R-SEQ.2: on the trace of make_constraint the row-allocating launches are ordered equality < friction loss < limit < contact (rows are classified by position), each bumps exactly its own class counter and allocates from nefc in the same kernel"
